@@ -22,3 +22,91 @@ Theorem C07_target_suffices_refuted_F21 :
   exists a c, wf a (IInt 15) /\ calc_ctx a = Some c /\ f21_region a = true /\ suffices a (c_desired c) (knob_after a c) = false.
 Proof. exact f21_refutes. Qed.
 Print Assumptions C07_target_suffices_refuted_F1.
+
+(* ---------- Part "it never waits on a wake-up that will not come" ----------
+   A reconcile that changes nothing, reports no error and asks for no requeue will not run again by itself.  The theorems
+   below say, for the Rollout reconcile (canary and blue-green) and the BatchRelease reconcile, for EVERY persisted state
+   and observation: such a quiet reconcile happens only while the next move is somebody else's -- and the two controllers
+   are never each the other's "somebody else" at the same time. *)
+From RV Require Model.RolloutSM Model.RolloutBG Model.BRExec Model.Loop Corr.RolloutSM Corr.RolloutBG Corr.BRExec
+                Proofs.RolloutSM Proofs.RolloutBG Proofs.BRExec Proofs.Loop.
+
+(* canary: rolling, no user request pending, the BatchRelease's rollout-id aligned.  Cursor, Progressing reason and
+   BatchRelease unchanged and no requeue  ==>  the workload is missing / lagging, or the step waits for its BatchRelease
+   to report Ready (plan in place), for an approval (pause without duration, not the 100% last step), or sits in a
+   hand-written state *)
+Theorem C07_quiet_rolling_is_waiting :
+  forall sp st w br m u x y,
+  RolloutSM.reconcile sp st w br = RolloutSM.ROut m ->
+  RolloutSM.rp_phase st = RolloutSM.RpProgressing -> RolloutSM.rs_deleting sp = false ->
+  RolloutSM.rp_prog st = Some (RolloutSM.PrInRolling, x, y) -> RolloutSM.rp_sub st = Some u ->
+  (RolloutSM.su_next u = RolloutSM.next_index (RolloutSM.nsteps sp) (RolloutSM.su_idx u) \/ RolloutSM.su_next u <= 0) ->
+  (sempty (RolloutSM.su_hash u) = true \/ RolloutSM.su_hash u = RolloutSM.rs_hash sp) ->
+  RolloutSM.wl_canary w = RolloutSM.su_canary_rev u ->
+  Corr.RolloutSM.synced_br (Corr.RolloutSM.observed_sub w u) br = br ->
+  RolloutSM.o_requeue m = false -> RolloutSM.o_br m = br ->
+  (forall s', RolloutSM.o_status m = Some s' -> RolloutSM.rp_prog s' = RolloutSM.rp_prog st /\
+     exists v, RolloutSM.rp_sub s' = Some v /\ RolloutSM.su_idx v = RolloutSM.su_idx u /\ RolloutSM.su_state v = RolloutSM.su_state u) ->
+  RolloutSM.o_status m <> None ->
+  RolloutSM.wl_exists w = false \/ RolloutSM.wl_consistent w = false \/
+  Corr.RolloutSM.waits_rolling sp (Corr.RolloutSM.observed_sub w u) w br = true.
+Proof. exact Proofs.RolloutSM.quiet_rolling_is_waiting. Qed.
+Print Assumptions C07_quiet_rolling_is_waiting.
+
+(* the other Progressing reasons: initialising, finalising, cancelling always requeue or move on; only "paused by the user"
+   and an unknown reason are quiet *)
+Theorem C07_quiet_progressing_is_waiting :
+  forall sp st w br m reason x y,
+  RolloutSM.reconcile sp st w br = RolloutSM.ROut m ->
+  RolloutSM.rp_phase st = RolloutSM.RpProgressing -> RolloutSM.rs_deleting sp = false ->
+  RolloutSM.rp_prog st = Some (reason, x, y) -> reason <> RolloutSM.PrInRolling ->
+  RolloutSM.wl_exists w = true -> RolloutSM.wl_consistent w = true ->
+  RolloutSM.o_requeue m = false ->
+  (forall s', RolloutSM.o_status m = Some s' -> RolloutSM.rp_prog s' = RolloutSM.rp_prog st /\ RolloutSM.rp_phase s' = RolloutSM.rp_phase st) ->
+  RolloutSM.o_status m <> None ->
+  (reason = RolloutSM.PrPaused /\ RolloutSM.rs_paused sp = true) \/ reason = RolloutSM.PrOther.
+Proof. exact Proofs.RolloutSM.quiet_progressing_is_waiting. Qed.
+Print Assumptions C07_quiet_progressing_is_waiting.
+
+(* blue-green: the same, without the shortcut out of the last pause *)
+Theorem C07_bluegreen_quiet_rolling_is_waiting :
+  forall sp st w br m u x y,
+  RolloutBG.reconcile_bg sp st w br = RolloutSM.ROut m ->
+  RolloutSM.rp_phase st = RolloutSM.RpProgressing -> RolloutSM.rs_deleting sp = false ->
+  RolloutSM.rp_prog st = Some (RolloutSM.PrInRolling, x, y) -> RolloutSM.rp_sub st = Some u ->
+  (RolloutSM.su_next u = RolloutSM.next_index (RolloutSM.nsteps sp) (RolloutSM.su_idx u) \/ RolloutSM.su_next u <= 0) ->
+  (sempty (RolloutSM.su_hash u) = true \/ RolloutSM.su_hash u = RolloutSM.rs_hash sp) ->
+  RolloutSM.wl_canary w = RolloutSM.su_canary_rev u ->
+  Corr.RolloutSM.synced_br (Corr.RolloutSM.observed_sub w u) br = br ->
+  RolloutSM.o_requeue m = false -> RolloutSM.o_br m = br ->
+  (forall s', RolloutSM.o_status m = Some s' -> RolloutSM.rp_prog s' = RolloutSM.rp_prog st /\
+     exists v, RolloutSM.rp_sub s' = Some v /\ RolloutSM.su_idx v = RolloutSM.su_idx u /\ RolloutSM.su_state v = RolloutSM.su_state u) ->
+  RolloutSM.o_status m <> None ->
+  RolloutSM.wl_exists w = false \/ RolloutSM.wl_consistent w = false \/
+  Corr.RolloutBG.waits_rolling_bg sp (Corr.RolloutSM.observed_sub w u) w br = true.
+Proof. exact Proofs.RolloutBG.bg_quiet_rolling_is_waiting. Qed.
+Print Assumptions C07_bluegreen_quiet_rolling_is_waiting.
+
+(* the BatchRelease reconcile: quiet only when Completed, when the sync phase stopped for the workload / the Rollout, or
+   when a Ready batch is held by batchPartition.  (Waiting for pods is never quiet: a batch that is not ready returns an
+   error and is retried with back-off.) *)
+Theorem C07_quiet_batchrelease_is_waiting :
+  forall sp st w r,
+  BRExec.reconcile sp st w = Some r -> BRExec.r_finalizer r = true ->
+  BRExec.r_requeue r = BRExec.RqNone -> BRExec.r_err r = false -> BRExec.status_eqb st (BRExec.r_status r) = true ->
+  Corr.BRExec.waits_br sp st w = true.
+Proof. exact Proofs.BRExec.br_quiet_is_waiting. Qed.
+Print Assumptions C07_quiet_batchrelease_is_waiting.
+
+(* no circular wait: a BatchRelease controller that quietly holds a Ready batch at batchPartition (Progressing, sync did
+   not stop) is looked at by a Rollout controller whose upgrade gate is open, whatever step it is on: by
+   C07_quiet_rolling_is_waiting a Rollout in StepUpgrade is then not quiet *)
+Theorem C07_no_mutual_wait :
+  forall rsp u wl bsp bst cs r rid pol anno,
+  BRExec.reconcile bsp bst cs = Some r -> BRExec.r_finalizer r = true -> BRExec.r_requeue r = BRExec.RqNone -> BRExec.r_err r = false ->
+  BRExec.status_eqb bst (BRExec.r_status r) = true ->
+  BRExec.bs_phase bst = BRExec.PhProgressing -> BRExec.sp_deleting bsp = false ->
+  snd (BRExec.sync_status bsp bst cs) = false ->
+  Corr.RolloutSM.br_waiting rsp u wl (Some (Loop.br_view bsp bst rid pol anno)) = false.
+Proof. exact Proofs.Loop.no_mutual_wait. Qed.
+Print Assumptions C07_no_mutual_wait.
